@@ -11,7 +11,7 @@ import traceback
 from . import core, engine_s
 from .core import Undecided, VERIF, sh
 
-PROPS_DONE = None
+CONTRACT_CLASSES = ('postcondition', 'precondition', 'assigns', 'frees', 'assertion', 'loop_invariant_base', 'loop_invariant_step', 'loop_decreases')
 
 
 def load_units(prop):
@@ -159,6 +159,21 @@ class Run:
                 reproduced, rtxt = self.native_replay(unit, inst, check, inputs, first.name)
         except Undecided as e:
             reproduced, rtxt = None, str(e)
+        if reproduced is not True and check.small:
+            # the verifier's model may be too large to replay (e.g. a 100 GB buffer): search again for a
+            # counterexample of the same obligations inside a small window (extra -D bounds on the inputs)
+            r2 = self.run_check((unit, inst, check, os.path.join(self.wd.path, unit.name, inst[0], 'unit.c'), list(check.small)))
+            if r2[3]:
+                f2 = [o for o in r2[3]['obligations'] if o.status != 'SUCCESS']
+                o2 = next((o for o in f2 if o.trace or getattr(o, 'model', None)), None)
+                if o2 is not None:
+                    in2 = getattr(o2, 'model', None) or engine_s.trace_inputs(o2.trace, check.harness, set(check.inputs))
+                    try:
+                        rep2, txt2 = self.native_replay(unit, inst, check, in2, o2.name)
+                    except Undecided as e:
+                        rep2, txt2 = None, str(e)
+                    if rep2:
+                        reproduced, rtxt, inputs = True, txt2 + ' [counterexample from the small-window re-run: %s]' % ' '.join(check.small), in2
         rec = dict(property=self.prop, unit=unit.name, instantiation=inst[0], inst_macros=inst[2], check=check.name,
                    engine=check.engine, failed_obligations=[o.as_dict() for o in failed],
                    inputs={k: (list(v) if isinstance(v, tuple) else v) for k, v in inputs.items()},
@@ -309,6 +324,7 @@ class Run:
             property_id=self.prop, tier=self.tier, seed=self.seed, level='proof',
             coverage=dict(
                 obligations=len(obl), discharged=len(discharged),
+                contract_level_obligations=sum(1 for n, o in obl if o.cls in CONTRACT_CLASSES or 'loop_invariant' in o.name or 'loop_decreases' in o.name),
                 checker_cmd='./vc check %s --tier %s   [per obligation group: goto-cc --function <harness> unit.c ; goto-instrument --dfcc <harness> --enforce-contract <f> [--replace-call-with-contract <g>] [--apply-loop-contracts] ; %s]' % (
                     self.prop, self.tier, ' | '.join(cmds)[:600]),
                 trusted_base=meta.get('trusted_base', []) + [
@@ -375,8 +391,10 @@ def cmd_check(prop, tier, only_unit=None, only_inst=None, verbose=False):
                 print(v)
             return 1
         if run.undecided:
-            for u in run.undecided:
-                print('UNDECIDED property=%s reason=%s' % (prop, u.replace('\n', ' ')[:1200]))
+            for u in run.undecided[:12]:
+                print('UNDECIDED property=%s reason=%s' % (prop, u.replace('\n', ' ')[:700]))
+            if len(run.undecided) > 12:
+                print('UNDECIDED property=%s reason=... and %d more undecided check runs' % (prop, len(run.undecided) - 12))
             return 2
         if cov['obligations'] == 0 or cov['obligations'] != cov['discharged'] + sum(
                 1 for (u, i, c, res, t) in run.results if c.engine != 'B' for o in res['obligations'] if o.status != 'SUCCESS'):
